@@ -8,6 +8,9 @@ from vlib import std
 from vlib.core import Case, ROOT
 
 PROP = "C17"
+# the aggregator bridge (resource nodes -> per-second items -> writer; checks/AGG.py, notes/AGG.md) is an extra phase of
+# this property: `bin/check C17 …` runs it afterwards and reports it under C17
+ALSO = ["AGG"]
 SPEC_MODE = "spec"
 KEEP_PREFIX = 2                      # clock + log.new
 SIZES = {"quick": 260, "thorough": 1500}
